@@ -959,7 +959,9 @@ fn gen_case(r: &mut Rng, is_req: bool) -> Case {
             (s(":scheme"), s(*r.pick(&["https", "http"]))),
             (
                 s(":path"),
-                match r.below(6) {
+                match if method == "OPTIONS" && r.chance(1, 2) { 6 } else { r.below(6) } {
+                    // the asterisk form of a server-wide OPTIONS request (RFC 7540 8.1.2.3)
+                    6 => s("*"),
                     0 => s("/"),
                     1 => s("/index.html"),
                     2 => s("/a/b/c?d=e&f=g%20h"),
@@ -1188,6 +1190,7 @@ fn base_lists() -> Vec<(bool, Vec<(String, String)>)> {
     b.push((s("accept-encoding"), s("gzip, deflate")));
     v.push((true, b));
     v.push((true, vec![(s(":method"), s("GET")), (s(":path"), s("/index.html")), (s(":scheme"), s("https"))]));
+    v.push((true, vec![(s(":method"), s("OPTIONS")), (s(":path"), s("*")), (s(":scheme"), s("https")), (s(":authority"), s("www.example.com")), (s("user-agent"), s("probe/1"))]));
     let mut c = res_base();
     c.push((s("server"), s("nginx")));
     c.push((s("content-type"), s("text/html")));
